@@ -18,6 +18,7 @@ open Proto SigGen
       table                                          (tableRawB, batched) -> ds:ev:shg:src,… <normalised weights> <weight sum> | ERR
       vrel   <ds> <ra|dec|sin_dec|o<field id>> <lo> <hi>   (one line per configured (dataset, field); the model relocates and decides)
       akw    <requested totals of the calls sharing one sig_kwargs dictionary> -> mean handed to the generator per call (- = not called)
+      cache  <ops: u = use, c<m> = change_shg_mgr(m)> (generator constructed on manager 0) -> manager whose candidates each op works with
       agg    <counts> <number of per-dataset generators>  -> n;key=count,… | ERR   (aggregation after the fix)
       gen    <right01> <n> <us>                      -> n;used;ds=row:ra:dec:sin_dec,…|ds=… | ERR   (generateEv)
       mu2flux <mu> <Phi0 per source> <unit per source> -> per-source fluxes;total
@@ -104,6 +105,9 @@ def step (s : St) (line : String) : St × String :=
   | ["vrel", d, fld, lo, hi] => ({ s with vr := s.vr ++ [(pN d, pFld fld, pF lo, pF hi)] }, "ok")
   | ["akw", rs] =>
       (s, fListD (fun o => match o with | some (m : Int) => toString m | none => "x") (kwHistory kwCall none (pList pI rs)))
+  | ["cache", ops] =>
+      let os : List GenOp := (pList id ops).map fun t => if t == "u" then GenOp.use else GenOp.changeMgr ((t.drop 1).toString.toNat!)
+      (s, fListD toString (genRun genStep ⟨0, 0⟩ os))
   | ["agg", cs, k] =>
       let gens : List DsGen := (List.range (pN k)).map fun j c =>
         if c < 0 then none else some (c.toNat, [(j, c.toNat)])
